@@ -714,6 +714,46 @@ def run(ctx):
                        "the %s arm %s a state field from `%s`" % (kind, "sets" if used else "never sets", p["n"]))
     ctx.guard("R04.6", r6)
 
+    # ---------------------------------------------------------------- R04.7 parse input == sliced buffer
+    ctx.rule("R04.7", "element text (<data>, <script>, <assign>, <content>, ...) is cut out of ReaderState.content by the byte offsets the XML "
+                      "parser reports, so the parser must be given exactly that text: the argument of every quick-xml Reader::from_str in "
+                      "the reader is a plain copy (clone / as_str / to_string / to_owned / as_ref) of self.content")
+
+    def r7():
+        COPY = {"clone", "as_str", "to_string", "to_owned", "as_ref", "borrow", "deref"}
+        sites = []
+        for fn in reader_fns(F):
+            for c in fn.calls(pred=lambda n: "quick_xml" in (n.get("p") or "") and (n.get("p") or "").endswith("::from_str")):
+                sites.append((fn, c))
+        ctx.floor("R04.7", "Reader::from_str sites in the reader", len(sites), 1)
+        slices = sum(1 for fn in reader_fns(F) for n in fn.walk()
+                     if n.get("k") == "index" and is_field_of(n["e"], "content") and owner_in_type(peel(n["e"], NO_T).get("bty", ""), "ReaderState"))
+        ctx.floor("R04.7", "slices of ReaderState.content by parser offsets", slices, 1)
+        for i, (fn, c) in enumerate(sites):
+            e = c["a"][0]
+            chain = []
+            ok = None
+            for _ in range(12):
+                e = peel(e, NO_T)
+                if e.get("k") == "mcall" and not e["a"]:
+                    chain.append(e["m"])
+                    if e["m"] not in COPY:
+                        ok = False
+                        break
+                    e = e["r"]
+                    continue
+                b = local_of(e, NO_T)
+                d = hirq.single_def(fn, b) if b is not None else None
+                if d is not None:
+                    e = d
+                    continue
+                break
+            if ok is None:
+                ok = is_field_of(e, "content") and owner_in_type(peel(e, NO_T).get("bty", ""), "ReaderState")
+            ctx.ob("R04.7", site_key(fn, "parser input is an unmodified copy of self.content", i), ok, line_of(c),
+                   "argument derives from %s through [%s]" % (describe(e), ", ".join(chain)))
+    ctx.guard("R04.7", r7)
+
 
 def wire_arm(a):
     p = a["pat"]
